@@ -33,6 +33,18 @@ def labelling_pool(rng, T, K):
             lab += [order[k]] * (c - prev)
             prev, k = c, k + 1
         pool[i + 1] = lab
+    # near-identical labellings: same label multiset / same label sum (two points swapped), or different only at
+    # the very first / very last point — a sloppy equality test would take them for equal
+    a = list(pool[1])
+    i0 = next(i for i, x in enumerate(a) if x != a[-1])
+    a[i0], a[-1] = a[-1], a[i0]
+    pool[9] = a
+    b = list(pool[2])
+    b[-1] = (b[-1] + 1) % K
+    pool[10] = b
+    c = list(pool[3])
+    c[0] = (c[0] + 1) % K
+    pool[11] = c
     for i in range(3):
         base = list(pool[i + 1])
         victim = rng.randrange(K)
@@ -50,7 +62,7 @@ def labelling_pool(rng, T, K):
 
 def gen_script(rng):
     limit = rng.randint(1, 8)
-    style = rng.choice(["converge", "cycle", "repop", "immediate", "long"])
+    style = rng.choice(["converge", "cycle", "repop", "immediate", "long", "near-equal", "near-equal"])
     if style == "converge":
         j = rng.randint(1, limit + 1)
         ids = [rng.randint(1, 8)]
@@ -64,6 +76,10 @@ def gen_script(rng):
         script, cyc = rng.sample(range(1, 9), n), 1
     elif style == "repop":
         script, cyc = [rng.randint(1, 8), 100 + rng.randint(0, 2), rng.randint(1, 8), 100 + rng.randint(0, 2)], 1
+    elif style == "near-equal":
+        x, y = rng.choice([(1, 9), (2, 10), (3, 11), (9, 1), (10, 2)])
+        script, cyc = [rng.randint(4, 8)] * rng.randint(0, 1) + [x, y, y], 0
+        limit = max(limit, 4)
     elif style == "immediate":
         a = rng.randint(1, 8)
         script, cyc = [a, a], 0
